@@ -176,8 +176,11 @@ def run(tr, inp):
         return U.UserDeleteNode(tr, a["n"], pixels=px), info
     if kind == "UserAddNode":
         px = tuple(np.array([c[d] for c in a["pixels"]]) for d in range(seg.ndim))
-        return U.UserAddNode(tr, a["n"], {T: a["frame"], TID: a["tid"], CUS: a["cus"]}, pixels=px,
-                             force=a["force"]), info
+        attrs = {T: a["frame"], TID: a["tid"], CUS: a["cus"]}
+        if a.get("given"):
+            attrs[POS] = [_num(x) for x in a["given"]["pos"]]
+            attrs["area"] = _num(a["given"]["area"])
+        return U.UserAddNode(tr, a["n"], attrs, pixels=px, force=a["force"]), info
     raise AssertionError(kind)
 
 
@@ -336,6 +339,20 @@ def replay(f):
         if r3 is not None:
             return r3[0], detail + " (after redo) " + r3[1]
         detail += f" undone={_brief(S2)} seg2={S2['seg'].tolist()} redone={_brief(S3)} seg3={S3['seg'].tolist()}"
+        if ob in ("C01.second_undo", "C01.second_redo", "C01.inverse_applies_again"):
+            try:
+                tr.undo()
+                S4 = snapshot(tr)
+                tr.redo()
+                S5 = snapshot(tr)
+            except Exception as e:
+                return ob == "C01.inverse_applies_again", detail + f" second inverse raised {type(e).__name__}: {e}"
+            detail += f" undone_again={_brief(S4)} seg4={S4['seg'].tolist()} redone_again={_brief(S5)}"
+            if ob == "C01.second_undo":
+                return not (same_graph(S0, S4) and attrs_close(S0, S4) and np.array_equal(S0["seg"], S4["seg"])), detail
+            if ob == "C01.second_redo":
+                return not (same_graph(S1, S5) and attrs_close(S1, S5) and np.array_equal(S1["seg"], S5["seg"])), detail
+            return False, detail
         table = {
             "C01.undo_graph": same_graph(S0, S2),
             "C01.undo_attrs": attrs_close(S0, S2),
